@@ -24,7 +24,7 @@ CHECKS = {
  'C12': {
   'engine': 'sim_calls+sim_cache',
   'technique': 'deterministic simulation: seeded interleaved API-call histories over shared objects vs isolated pristine executions, plus simulated process lifetimes over a fault-injected parser-table cache directory',
-  'text': 'Seeded exploration (not proof): every run is one seed-determined history of API calls by several logical clients, executed by the real code in a pristine forked process and compared call by call with the isolated execution of each thread of explicit dependence; inputs and shared tables are digested before/after; a second world restarts real interpreters over a cache directory left empty, warm, stale, torn, foreign or unwritable by earlier (possibly killed) processes. A clean batch is evidence bounded by the generators and budgets reported in the evidence file.',
+  'text': 'Seeded exploration (not proof): every run is one seed-determined history of API calls by several logical clients, (entry points in all their calling conventions, well-formed and malformed bytes, lines and expressions, single and repeated calls) executed by the real code in a pristine forked process and compared call by call with the isolated execution of each thread of explicit dependence; inputs and shared tables are digested before/after; a second world restarts real interpreters over a cache directory left empty, warm, stale, torn, foreign or unwritable by earlier (possibly killed) processes. A clean batch is evidence bounded by the generators and budgets reported in the evidence file.',
   'note': 'Trusted: fork() gives an exact pristine copy of post-import state; PYTHONHASHSEED pinned to 0 here (seed dependence is C13); canonical structural serialisation written for this check; memo flags put on a result object by its producing call are treated as part of that object. One listed finding (is_eval-leak) is attributed through a corrective shim in a re-run, never in the deciding run.',
   'design': 'DESIGN.md 4.1',
  },
@@ -45,7 +45,7 @@ CHECKS = {
  'C13': {
   'engine': 'sim_hashseed',
   'technique': 'deterministic simulation of interpreter start-up nondeterminism: the same seeded workload in fresh interpreters differing only in PYTHONHASHSEED and allocation pattern; logs compared item by item',
-  'text': 'Decides the seed/process-independence clause: simplified forms, lifted semantics, rendered instructions (incl. operands adding several symbols) and state dumps must be byte-identical across fresh interpreters with different string-hash keys and perturbed allocation order. Idempotence, operand-order insensitivity and insensitivity to object sharing are checked on the same generated items inside each interpreter and are labelled generated-input checks, not simulation.',
+  'text': 'Decides the seed/process-independence clause: simplified forms, lifted semantics, rendered instructions (incl. operands adding several symbols) and state dumps (incl. the state committed by every lifted instruction of the workload) must be byte-identical across fresh interpreters with different string-hash keys and perturbed allocation order. Idempotence, operand-order insensitivity and insensitivity to object sharing are checked on the same generated items inside each interpreter and are labelled generated-input checks, not simulation.',
   'note': 'Trusted: deterministic call budget instead of wall clock; items on which any interpreter hits the budget, the alarm or an exception are dropped for all; an address-order difference must show under 2 of 6 seeded allocation patterns to be reported.',
   'design': 'DESIGN.md 4.4',
  },
